@@ -171,7 +171,26 @@ class MapLaws(Harness):
                    ln=numpy.array(gm.vrnt_chrgrp_len))
         out["d1"] = gm.gdist1g(gm.vrnt_chrgrp, gm.vrnt_genpos)
         out["d2"] = gm.gdist2g(gm.vrnt_chrgrp, gm.vrnt_genpos)
+        # windows of the pairwise matrix: rows rst:rsp against columns cst:csp (different windows, overlapping and disjoint)
+        wins = [(0, max(1, n // 2), n // 2, n), (1 if n > 1 else 0, n, 0, max(1, n - 1))]
+        out["wins"] = wins
+        out["d2w"] = [gm.gdist2g(gm.vrnt_chrgrp, gm.vrnt_genpos, rst=a, rsp=b, cst=c, csp=d) for (a, b, c, d) in wins]
         out["own"] = gm.interp_genpos(gm.vrnt_chrgrp, gm.vrnt_phypos)
+        # the same markers queried in an order that interleaves the chromosomes (and an absent chromosome in between)
+        order = []
+        lo, hi = 0, n - 1
+        while lo <= hi:
+            order.append(hi)
+            if lo != hi:
+                order.append(lo)
+            lo, hi = lo + 1, hi - 1
+        order = numpy.array(order)
+        qc2 = numpy.concatenate([numpy.array(gm.vrnt_chrgrp)[order][:1], [99], numpy.array(gm.vrnt_chrgrp)[order][1:]]).astype("int64")
+        ph = gm.vrnt_phypos
+        pieces = [ph[order][:1], (symnp.box(numpy.array([7])) if isinstance(ph, symnp.SymArray) else numpy.array([7])), ph[order][1:]]
+        qp2 = numpy.concatenate(pieces)
+        out["inter"] = gm.interp_genpos(qc2, qp2)
+        out["inter_order"] = order
         # query markers: one symbolic position on chromosome 1, one on a chromosome absent from the map
         qc = numpy.array([1, 99], dtype="int64")
         q = inp["q"]
@@ -228,7 +247,21 @@ class MapLaws(Harness):
             for i, j, k in itertools.combinations(range(n), 3):
                 if chr_o[i] == chr_o[j] == chr_o[k]:
                     P.prove(P.eq(cell(d2, i, k), cell(d2, i, j) + cell(d2, j, k)), "pairwise-distance-additive-for-ordered-markers")
+        for (a, b, c, d), w in zip(out["wins"], out["d2w"]):
+            P.prove(tuple(w.shape) == (b - a, d - c), "pairwise-window-shape", detail="%s for window %s" % (tuple(w.shape), (a, b, c, d)))
+            if tuple(w.shape) != (b - a, d - c):
+                continue
+            for i in range(b - a):
+                for j in range(d - c):
+                    x, y = cell(w, i, j), cell(d2, a + i, c + j)
+                    P.prove((x == y) if (isinstance(x, float) and isinstance(y, float)) else P.eq(x, y), "pairwise-window=block-of-the-full-matrix", detail="window %s cell (%d,%d)" % ((a, b, c, d), i, j))
         # interpolation
+        order = [int(k) for k in out["inter_order"]]
+        res = list(cells(out["inter"]))
+        P.prove(len(res) == n + 1 and is_nan(res[1]), "interleaved-query: absent chromosome missing, one answer per query")
+        if len(res) == n + 1:
+            for pos, k in enumerate(order):
+                P.prove(P.eq(res[pos if pos == 0 else pos + 1], cell(gen_o, k)), "interpolation-independent-of-the-order-of-the-queries (interleaved chromosomes)")
         for i in range(n):
             P.prove(P.eq(cell(out["own"], i), cell(gen_o, i)), "interpolation-at-own-markers-returns-stored-positions")
             P.prove(P.eq(cell(out["gm2gen"], i), cell(gen_o, i)), "interp_gmap-at-own-markers-reproduces-the-map")
